@@ -134,6 +134,8 @@ class Graph:
                     continue
                 t = blk["term"]
                 if t.get("t") == "assert":
+                    if t["kind"].startswith("ub_check:"):
+                        continue   # debug-build pointer/enum validity checks: cannot fire in safe code
                     out.append(dict(kind=t["kind"], what=t["kind"], body=bp, block=i, sp=t.get("sp"), mac=t.get("mac") or [], term=t, mir=mir))
                 elif t.get("t") == "call":
                     c = self.callee(t) or ""
